@@ -275,7 +275,13 @@ pub fn handle(rq: Request, prog: &Prog, nonce: &str, client_len: usize, sink: &M
 
 /// `before_finish` runs after the reads, right before the finishing action (used by the
 /// scheduled engine to realise start orders).
-pub fn handle_with(mut rq: Request, prog: &Prog, nonce: &str, client_len: usize, sink: &Mutex<Vec<Delivered>>, before_finish: &dyn Fn()) {
+pub fn handle_with(rq: Request, prog: &Prog, nonce: &str, client_len: usize, sink: &Mutex<Vec<Delivered>>, before_finish: &dyn Fn()) {
+    handle_with2(rq, prog, nonce, client_len, sink, before_finish, &|| {})
+}
+
+/// As `handle_with`; `writer_held` runs when a raw writer has written and flushed its whole
+/// response and is still alive (the application may keep it: the request is answered all the same).
+pub fn handle_with2(mut rq: Request, prog: &Prog, nonce: &str, client_len: usize, sink: &Mutex<Vec<Delivered>>, before_finish: &dyn Fn(), writer_held: &dyn Fn()) {
     let mut d = describe(&rq, nonce);
     d.client_len_at_delivery = client_len;
     let id = d.id.unwrap_or(9999);
@@ -399,6 +405,7 @@ pub fn handle_with(mut rq: Request, prog: &Prog, nonce: &str, client_len: usize,
                 from = p;
             }
             let _ = w.flush();
+            writer_held();
             drop(w);
         }
         Finish::Upgrade { proto } => {
